@@ -60,6 +60,8 @@ pub struct CommonContext {
     pub special: Rc<RefCell<HashMap<String, Expr>>>,
     // device
     pub device: Rc<RefCell<Option<Device>>>,
+    // lines read so far, from files, included files and macro bodies
+    pub lines: Rc<std::cell::Cell<usize>>,
 }
 
 impl CommonContext {
@@ -72,6 +74,7 @@ impl CommonContext {
             sets: Rc::new(RefCell::new(hashmap! {})),
             special: Rc::new(RefCell::new(hashmap! {})),
             device: Rc::new(RefCell::new(Some(Device::new(0)))),
+            lines: Rc::new(std::cell::Cell::new(0)),
         }
     }
 }
